@@ -16,11 +16,23 @@ Record jsnap := JSnap {
   js_id : nat; js_pipe : name; js_start : bool; js_end : bool; js_completed : bool; js_canceled : bool; js_lasterr : option err;
   js_timer : bool; js_delay : nat; js_env : nat; js_vars : vkind; js_user : nat; js_tasks : list tsnap; js_sched : option ssnap;
   js_cancels : nat; js_ctx : bool }.
+(** what the store holds for a job, as far as it is compared (no timestamps) *)
+Record ptsnap := PTSnap {
+  pts_name : name; pts_deps : list name; pts_allow : bool; pts_empty : bool; pts_script : nat; pts_status : status;
+  pts_start : bool; pts_end : bool; pts_skipped : bool; pts_exit : Z; pts_errored : bool; pts_err : option err }.
+Record pjsnap := PJSnap {
+  pjs_id : nat; pjs_pipe : name; pjs_completed : bool; pjs_canceled : bool; pjs_start : bool; pjs_end : bool; pjs_vars : vkind;
+  pjs_user : nat; pjs_lasterr : option err; pjs_tasks : list ptsnap }.
+Global Instance ptsnap_eq_dec : EqDecision ptsnap. Proof. solve_decision. Defined.
+Global Instance pjsnap_eq_dec : EqDecision pjsnap. Proof. solve_decision. Defined.
+
 Record snap := Snap {
   sn_jobs : list jsnap;
   sn_wait : list (name * list nat);          (* for the pipelines the harness asked about, sorted by name *)
   sn_pipes : list (name * bool * bool);      (* ListPipelines: name, schedulable, running *)
-  sn_req : bool }.
+  sn_req : bool;
+  sn_logs : list nat;                        (* log directories present, sorted *)
+  sn_store : option (list pjsnap) }.         (* store content sorted by id, when the harness read it *)
 
 Global Instance tsnap_eq_dec : EqDecision tsnap. Proof. solve_decision. Defined.
 Global Instance phase_kind_eq_dec : EqDecision phase_kind. Proof. solve_decision. Defined.
@@ -54,8 +66,17 @@ Definition obs_jobs (s : state) : list jsnap :=
 Definition obs_pipes (s : state) : list (name * bool * bool) :=
   map (fun p => (p, schedulable s p, pipeline_running s p)) (sort_names (map fst (st_defs s))).
 
-Definition obs_state (s : state) (asked : list name) : snap :=
-  Snap (obs_jobs s) (map (fun p => (p, wl_get (st_wait s) p)) asked) (obs_pipes s) (st_req s).
+Definition obs_ptask (t : ptask) : ptsnap :=
+  PTSnap (pt_name t) (pt_deps t) (pt_allow t) (pt_empty t) (pt_script t) (pt_status t) (is_some (pt_start t)) (is_some (pt_end t))
+         (pt_skipped t) (pt_exit t) (pt_errored t) (pt_err t).
+Definition obs_pjob (pj : pjob) : pjsnap :=
+  PJSnap (pj_id pj) (pj_pipe pj) (pj_completed pj) (pj_canceled pj) (is_some (pj_start pj)) (is_some (pj_end pj)) (pj_vars pj)
+         (pj_user pj) (pj_lasterr pj) (map obs_ptask (pj_tasks pj)).
+
+(** [with_store]: the harness read the store after this event *)
+Definition obs_state (s : state) (asked : list name) (with_store : bool) : snap :=
+  Snap (obs_jobs s) (map (fun p => (p, wl_get (st_wait s) p)) asked) (obs_pipes s) (st_req s) (sort_names (st_logs s))
+       (if with_store then Some (map obs_pjob (default [] (st_store s))) else None).
 
 (** the context flag of a finished job is not observable through the model (the scheduler record is gone): the
     harness reports it only while the scheduler is alive; normalise the implementation side the same way *)
@@ -63,12 +84,12 @@ Definition norm_jsnap (j : jsnap) : jsnap :=
   JSnap (js_id j) (js_pipe j) (js_start j) (js_end j) (js_completed j) (js_canceled j) (js_lasterr j) (js_timer j) (js_delay j)
         (js_env j) (js_vars j) (js_user j) (js_tasks j) (js_sched j) (js_cancels j)
         (match js_sched j with Some _ => js_ctx j | None => false end).
-Definition norm_snap (sn : snap) : snap := Snap (map norm_jsnap (sn_jobs sn)) (sn_wait sn) (sn_pipes sn) (sn_req sn).
+Definition norm_snap (sn : snap) : snap := Snap (map norm_jsnap (sn_jobs sn)) (sn_wait sn) (sn_pipes sn) (sn_req sn) (sn_logs sn) (sn_store sn).
 
 (** ** projections: which observables a property is about (DESIGN.md 3.3, comparison rule) *)
 Record groups := Groups {
   g_flags : bool; g_lasterr : bool; g_timer : bool; g_meta : bool; g_tstatus : bool; g_tdef : bool; g_sched : bool;
-  g_cancels : bool; g_wait : bool; g_pipes : bool; g_req : bool }.
+  g_cancels : bool; g_wait : bool; g_pipes : bool; g_req : bool; g_store : bool }.
 
 Definition blank_task (g : groups) (t : tsnap) : tsnap :=
   TSnap (ts_name t)
@@ -85,22 +106,25 @@ Definition blank_job (g : groups) (j : jsnap) : jsnap :=
         (if g_sched g then js_sched j else None) (if g_cancels g then js_cancels j else 0%nat) (g_cancels g && js_ctx j).
 
 Definition proj (g : groups) (sn : snap) : snap :=
-  Snap (map (blank_job g) (sn_jobs sn)) (if g_wait g then sn_wait sn else []) (if g_pipes g then sn_pipes sn else []) (g_req g && sn_req sn).
+  Snap (map (blank_job g) (sn_jobs sn)) (if g_wait g then sn_wait sn else []) (if g_pipes g then sn_pipes sn else []) (g_req g && sn_req sn)
+       (if g_store g then sn_logs sn else []) (if g_store g then sn_store sn else None).
 
 Definition groups_of (prop : nat) : groups :=
   match prop with
-  | 1 => Groups true false false false false false true false false true false
-  | 2 => Groups true true false false true true true false false false false
-  | 3 => Groups true false true false false false false false true false false
-  | 4 => Groups true true false false true false true true false false false
-  | 5 => Groups true false false false false false false false true true false
-  | 6 => Groups true false false false false false false false true false false
-  | 7 => Groups true false true false false false false false true false false
-  | 8 => Groups true true false false true false true true false false false
-  | 11 => Groups true true false false true false true true true true true
-  | 15 => Groups true false false false true true false false false true false
-  | 16 => Groups true false false true false true false false false false false
-  | _ => Groups true true true true true true true true true true true
+  | 1 => Groups true false false false false false true false false true false false
+  | 2 => Groups true true false false true true true false false false false false
+  | 3 => Groups true false true false false false false false true false false false
+  | 4 => Groups true true false false true false true true false false false false
+  | 5 => Groups true false false false false false false false true true false false
+  | 6 => Groups true false false false false false false false true false false false
+  | 7 => Groups true false true false false false false false true false false false
+  | 8 => Groups true true false false true false true true false false false false
+  | 10 => Groups true true false false true true false false false true false true
+  | 12 => Groups true false false false false false false false false false false true
+  | 11 => Groups true true false false true false true true true true true true
+  | 15 => Groups true false false false true true false false false true false false
+  | 16 => Groups true false false true false true false false false false false false
+  | _ => Groups true true true true true true true true true true true true
   end%nat.
 
 Inductive diff := DNotEnabled | DResult | DSnap | DOther.   (* DOther: the snapshots differ, but not in the property's projection *)
@@ -108,34 +132,42 @@ Inductive diff := DNotEnabled | DResult | DSnap | DOther.   (* DOther: the snaps
 Record history := History {
   h_id : nat;
   h_defs : defs;
-  h_steps : list (event * result * snap) }.
+  h_pre : list pjob;                          (* jobs left in the store by an earlier run *)
+  h_steps : list (event * result * option snap) }.   (* None: the snapshot of this step is not comparable *)
+
+Definition h_init (h : history) : state :=
+  match h_pre h with [] => init (h_defs h) | pre => init_from (h_defs h) pre end.
 
 (** walk the history; report the index of the first step where model and implementation differ *)
-Fixpoint replay_from (g : groups) (s : state) (i : nat) (steps : list (event * result * snap)) : option (nat * diff) :=
+Fixpoint replay_from (g : groups) (s : state) (i : nat) (steps : list (event * result * option snap)) : option (nat * diff) :=
   match steps with
   | [] => None
-  | (e, r, sn) :: steps =>
+  | (e, r, osn) :: steps =>
       match step s e with
       | None => Some (i, DNotEnabled)
       | Some (s', r') =>
           if negb (bool_decide (r = r')) then Some (i, DResult)
           else
-            let mo := obs_state s' (map fst (sn_wait sn)) in
-            let io := norm_snap sn in
-            if bool_decide (mo = io) then replay_from g s' (S i) steps
-            else if bool_decide (proj g mo = proj g io) then Some (i, DOther) else Some (i, DSnap)
+            match osn with
+            | None => replay_from g s' (S i) steps
+            | Some sn =>
+                let mo := obs_state s' (map fst (sn_wait sn)) (is_some (sn_store sn)) in
+                let io := norm_snap sn in
+                if bool_decide (mo = io) then replay_from g s' (S i) steps
+                else if bool_decide (proj g mo = proj g io) then Some (i, DOther) else Some (i, DSnap)
+            end
       end
   end.
 
 Definition replay (prop : nat) (h : history) : option (nat * diff) :=
-  replay_from (groups_of prop) (init (h_defs h)) 0 (h_steps h).
+  replay_from (groups_of prop) (h_init h) 0 (h_steps h).
 
 Definition mismatches_for (prop : nat) (hs : list history) : list (nat * nat * diff) :=
   omap (fun h => match replay prop h with Some (i, d) => Some (h_id h, i, d) | None => None end) hs.
 Definition mismatches := mismatches_for 0.
 
 (** the model's snapshot at the diverging step, for diagnosis *)
-Fixpoint state_at (s : state) (i : nat) (steps : list (event * result * snap)) : option (state * option (state * result)) :=
+Fixpoint state_at (s : state) (i : nat) (steps : list (event * result * option snap)) : option (state * option (state * result)) :=
   match steps with
   | [] => None
   | (e, r, sn) :: steps =>
@@ -144,3 +176,11 @@ Fixpoint state_at (s : state) (i : nat) (steps : list (event * result * snap)) :
       | S i => match step s e with Some (s', _) => state_at s' i steps | None => None end
       end
   end.
+
+(** diagnosis: which components of two snapshots differ (1 jobs, 2 wait, 3 pipes, 4 req, 5 logs, 6 store), and the ids of differing jobs *)
+Definition diff_where (a b : snap) : list nat * list nat :=
+  ((if bool_decide (sn_jobs a = sn_jobs b) then [] else [1%nat]) ++ (if bool_decide (sn_wait a = sn_wait b) then [] else [2%nat])
+   ++ (if bool_decide (sn_pipes a = sn_pipes b) then [] else [3%nat]) ++ (if bool_decide (sn_req a = sn_req b) then [] else [4%nat])
+   ++ (if bool_decide (sn_logs a = sn_logs b) then [] else [5%nat]) ++ (if bool_decide (sn_store a = sn_store b) then [] else [6%nat]),
+   omap (fun ab => if bool_decide (fst ab = snd ab) then None else Some (js_id (fst ab))) (zip (sn_jobs a) (sn_jobs b))
+   ++ (if Nat.eqb (length (sn_jobs a)) (length (sn_jobs b)) then [] else [999%nat])).
